@@ -22,6 +22,16 @@ CHECKS = {
         design_ref="DESIGN.md §1, §3 C12"),
 }
 
+CHECKS["C10"] = dict(
+    engine="K",
+    technique="bounded model checking (Kani/CBMC) of the derive expansions; operand payloads, variants, scalar and iterator length symbolic; oracle = the operator applied to the fields directly",
+    text="For each of the 24 operator derives on a grid of struct and enum shapes the solver decides, for all operand values at once "
+         "(free 32-bit payloads, symbolic variants), that the result is field-wise `lhs.i op rhs.i` with operand order preserved, that "
+         "`op=` equals `op`, that Sum/Product equal the fold from the field-wise empty value (0..=3 elements), and that enum mismatches / "
+         "unit variants give the documented errors. Operand types implement every operator as a distinct non-commutative injective "
+         "function, so any swap of operands, fields or operators has a witness the solver will find.",
+    design_ref="DESIGN.md §1, §3 C10")
+
 NOT_APPLICABLE = {
     "C01": "quantifies over programs with rustc's type checker and lint pass as the oracle; neither the expanders (syn trees, Rc/Vec heaps) nor rustc can be executed symbolically with the tools present (DESIGN.md §5)",
     "C04": "sufficiency/excess of inferred bounds is a trait-solver fact about generic impls; the code takes syn::Fields/syn::Type; no symbolic variable to quantify over (the placeholder-resolution front half is decided under C03) (DESIGN.md §5)",
